@@ -418,7 +418,8 @@ type DefaultServerDispatcher struct {
 	onRequestCancel     CanceledRequestHandler
 	network             ws.Server
 	mutex               sync.RWMutex
-	completeMutex       sync.Mutex // makes CompleteRequest atomic (a reply and the timeout of the same request may be handled at the same time)
+	completeMutex       sync.Mutex      // makes CompleteRequest atomic (a reply and the timeout of the same request may be handled at the same time)
+	removedClients      map[string]bool // clients whose session ended and whose timeout context the message pump has not dropped yet (guarded by mutex)
 }
 
 // Handler function to be invoked when a request gets canceled (either due to timeout or to other external factors).
@@ -487,6 +488,14 @@ func (d *DefaultServerDispatcher) CreateClient(clientID string) {
 
 func (d *DefaultServerDispatcher) DeleteClient(clientID string) {
 	d.queueMap.Remove(clientID)
+	// The same id may reconnect (and get a new queue) before the message pump handles the token posted below:
+	// remember that the session ended, so that the pump drops the old session's timeout context in any case
+	d.mutex.Lock()
+	if d.removedClients == nil {
+		d.removedClients = map[string]bool{}
+	}
+	d.removedClients[clientID] = true
+	d.mutex.Unlock()
 	if d.IsRunning() {
 		d.notifyPump(clientID)
 	}
@@ -569,6 +578,20 @@ func (d *DefaultServerDispatcher) messagePump(stoppedC chan struct{}, timerC cha
 			log.Info("stopped processing requests")
 			return
 		case clientID = <-reqChan():
+			// A session of this client ended since the last look: its timeout context must go, even if the
+			// client has reconnected already and owns a queue again
+			d.mutex.Lock()
+			sessionEnded := d.removedClients[clientID]
+			delete(d.removedClients, clientID)
+			d.mutex.Unlock()
+			if sessionEnded {
+				if oldCtx, found := clientContextMap[clientID]; found {
+					delete(clientContextMap, clientID)
+					if oldCtx.ctx != nil {
+						oldCtx.cancel()
+					}
+				}
+			}
 			// Check whether there is a request queue for the specified client
 			clientQueue, ok = d.queueMap.Get(clientID)
 			if !ok {
